@@ -7,6 +7,7 @@ package c14
 
 import (
 	"bytes"
+	"context"
 	"crypto/ed25519"
 	"encoding/binary"
 	"fmt"
@@ -159,6 +160,8 @@ type sideResult struct {
 	client   string
 	hasCtx   bool // result came from the secureservice API (context values)
 	proto    *handshakeproto.Proto
+	cctx     context.Context // the context HandshakeInbound / HandshakeOutbound returned (kept for the re-read)
+	idAtRet  []byte          // copy of the identity taken the moment the call returned
 }
 
 func checkReported(who string, r sideResult, p proven, v view) error {
@@ -170,6 +173,9 @@ func checkReported(who string, r sideResult, p proven, v view) error {
 	}
 	if v.verify {
 		if !bytes.Equal(r.identity, p.identity) {
+			if bytes.Equal(r.idAtRet, p.identity) {
+				return fmt.Errorf("%s attached identity %x when the handshake returned (what the signature proves), but the same connection reads %x at the end of the case, after later handshakes", who, r.idAtRet, r.identity)
+			}
 			return fmt.Errorf("%s attaches identity %x, the verified signature proves %x", who, r.identity, p.identity)
 		}
 	} else if len(r.identity) != 0 {
